@@ -1,5 +1,6 @@
 import Astm.Model.Wire
 import Astm.Model.Receiver
+import Astm.Model.Timer
 
 open Astm Astm.Wire
 
@@ -20,6 +21,18 @@ def parseEv (t : String) : Option Ev :=
   else if t == "L" then some .lost
   else if t.startsWith "d:" then (ofHex (t.drop 2).toString).map .data
   else none
+
+def parseTEv (t : String) : Option TEv :=
+  match t.splitOn ":" with
+  | ["r", tm, h] => do let n ← tm.toNat?; let b ← ofHex h; pure (.recv n b)
+  | ["i", tm] => tm.toNat?.map .idleUntil
+  | ["l", tm] => tm.toNat?.map .lost
+  | _ => none
+
+def showTOut (o : TOut) : String :=
+  let f := if o.fired.isEmpty then "-" else ",".intercalate (o.fired.map toString)
+  let c := match o.out with | none => "- - 0 - 0" | some x => showOut x
+  s!"{f} {c}"
 
 def showConn (s : Conn) : String :=
   s!"{if s.inTransfer then 1 else 0} [{",".intercalate (s.chunks.map toHex)}] [{",".intercalate (s.messages.map toHex)}]"
@@ -65,6 +78,16 @@ def handle (toks : List String) : String :=
       let fin := runState L Conn.init es
       "ok " ++ " ; ".intercalate (outs.map showOut) ++ " | " ++ showConn fin
     | none => "bad-arg"
+  | "trecv" :: fmt :: tmo :: evs => match tmo.toNat?, evs.mapM parseTEv with
+    | some timeout, some es =>
+      let fmt := if fmt == "@default" then DEFAULT_FORMAT else fmt
+      let L := lowOf fmt noVendor
+      let outs := trun L timeout TConn.init es
+      let fin := tstate L timeout TConn.init es
+      let live := (liveHandles fin).map (fun h => toString h.deadline)
+      "ok " ++ " ; ".intercalate (outs.map showTOut) ++ " | " ++ ",".intercalate live
+    | _, _ => "bad-arg"
+  | ["default-timeout"] => s!"ok {TIMEOUT}"
   | _ => "bad-op"
 
 partial def loop (h : IO.FS.Stream) (out : IO.FS.Stream) : IO Unit := do
